@@ -18,6 +18,8 @@
 (*   - a stopped sequence reports 'stopped while <step>' (step still repeating)   *)
 (*     or 'stopped after <step>' (ERROR if fault_on_stop else WARN),              *)
 (*   - when the thread is done it polls the module: the cached status leaves BUSY.*)
+(*   - when no sequence is alive and the last one neither failed nor was stopped, the status is    *)
+(*     what the module's hook returns (docstring: _ext_state(); the code calls readHwStatus()).   *)
 (* Loose (not promised): the status text before the first step is active and      *)
 (* between a wait and the next call; whether a stop that arrives during the wait  *)
 (* after the very last call is still reported; whether cleanup runs when a stop   *)
@@ -27,6 +29,8 @@ EXTENDS Naturals, Sequences, FiniteSets, TLC
 
 CONSTANTS Kinds,          \* step kinds used in sequences (subset of AllKinds)
           MaxLen,         \* sequences have 1 .. MaxLen steps
+          Hooks,          \* subset of {"none", "hw", "ext"}: the module has no idle-status hook / readHwStatus() /
+                          \* _ext_state() (the hook the class docstring names)
           FaultModes      \* subset of {"ee","ew","we","ww"}: init_sequencer(fault_on_error, fault_on_stop),
                           \* 1st letter: an error gives ERROR / WARN, 2nd letter: a stop gives ERROR / WARN
 
@@ -60,21 +64,24 @@ VARIABLES seq,        \* the sequence being (or last) executed
           owed,       \* finished sequence threads that have not yet polled the module
           cached,     \* status parameter as last polled
           last,       \* result of the last client operation
-          fm          \* fault mode of this module (never changes)
+          fm,         \* fault mode of this module (never changes)
+          hook        \* idle-status hook of this module (never changes)
 
-svars == <<seq, k, i, n, pc, res, stopflag, out, owed, cached, last, fm>>
+svars == <<seq, k, i, n, pc, res, stopflag, out, owed, cached, last, fm, hook>>
 FaultOnError == fm \in {"ee", "ew"}
 FaultOnStop == fm \in {"ee", "we"}
 
 alive == pc # "none"
 NoOut == [kind |-> "none", k |-> 0, mode |-> "none"]
 Idle == [code |-> "IDLE", word |-> "", k |-> 0]
+(* "Implement this to return a custom state tuple when the sequence is not active": the hook's answer *)
+HookStatus == [code |-> "WARN", word |-> "hook", k |-> 0]
 
 (* ---- what read_status returns, as a function of the state ---- *)
 Sev(flag) == IF flag THEN "ERROR" ELSE "WARN"
 StatusOf(p, o, kk) ==
     IF p # "none" THEN [code |-> "BUSY", word |-> "moving", k |-> kk]
-    ELSE CASE o.kind = "none"    -> Idle
+    ELSE CASE o.kind = "none"    -> IF hook = "none" THEN Idle ELSE HookStatus
            [] o.kind = "error"   -> [code |-> Sev(FaultOnError), word |-> "during", k |-> o.k]
            [] o.kind = "stopped" -> [code |-> Sev(FaultOnStop), word |-> o.mode, k |-> o.k]
 Status == StatusOf(pc, out, k)
@@ -84,24 +91,24 @@ TextBinding(p) == p \in {"none", "in", "sleep", "cleanup"}
 SInit == /\ seq = <<>> /\ k = 0 /\ i = 0 /\ n = 0 /\ pc = "none" /\ res = "none"
          /\ stopflag = FALSE /\ out = NoOut /\ owed = 0 /\ cached = Idle
          /\ last = [op |-> "none", ok |-> TRUE]
-         /\ fm \in FaultModes
+         /\ fm \in FaultModes /\ hook \in Hooks
 
 (* ---- client operations ---- *)
 Refuse == /\ last' = [op |-> "start", ok |-> FALSE]
-          /\ UNCHANGED <<seq, k, i, n, pc, res, stopflag, out, owed, cached, fm>>
+          /\ UNCHANGED <<seq, k, i, n, pc, res, stopflag, out, owed, cached, fm, hook>>
 
 Start(s) ==
     IF alive THEN Refuse                      \* IsBusyError, nothing changes
     ELSE \/ /\ seq' = s /\ k' = 1 /\ i' = 0 /\ n' = 0 /\ pc' = "call" /\ res' = "none"
             /\ stopflag' = FALSE /\ out' = NoOut
             /\ last' = [op |-> "start", ok |-> TRUE]
-            /\ UNCHANGED <<owed, cached, fm>>
+            /\ UNCHANGED <<owed, cached, fm, hook>>
          \/ /\ out.kind = "error" /\ FaultOnError     \* "a manual reset is required": may be refused
             /\ Refuse
 
 Stop == /\ stopflag' = (stopflag \/ alive)
         /\ last' = [op |-> "stop", ok |-> TRUE]
-        /\ UNCHANGED <<seq, k, i, n, pc, res, out, owed, cached, fm>>
+        /\ UNCHANGED <<seq, k, i, n, pc, res, out, owed, cached, fm, hook>>
 
 (* ---- the sequence thread ---- *)
 Terminate(o) == pc' = "none" /\ out' = o /\ owed' = owed + 1
@@ -113,7 +120,7 @@ StopHere(r) ==
 
 Call == /\ pc = "call"
         /\ pc' = "in" /\ n' = n + 1
-        /\ UNCHANGED <<seq, k, i, res, stopflag, out, owed, cached, last, fm>>
+        /\ UNCHANGED <<seq, k, i, res, stopflag, out, owed, cached, last, fm, hook>>
 
 Ret == /\ pc = "in"
        /\ LET r == Script(seq[k])[i + 1] IN
@@ -121,13 +128,13 @@ Ret == /\ pc = "in"
           /\ IF r = "raise" THEN Terminate([kind |-> "error", k |-> k, mode |-> "step"])
              ELSE IF stopflag THEN StopHere(r)
              ELSE pc' = "sleep" /\ UNCHANGED <<out, owed>>
-       /\ UNCHANGED <<seq, k, i, n, stopflag, cached, last, fm>>
+       /\ UNCHANGED <<seq, k, i, n, stopflag, cached, last, fm, hook>>
 
 CleanupAct ==
     /\ pc = "cleanup"
     /\ IF Cleanup(seq[k]) = "raise" THEN Terminate([kind |-> "error", k |-> k, mode |-> "cleanup"])
        ELSE Terminate(out)
-    /\ UNCHANGED <<seq, k, i, n, res, stopflag, cached, last, fm>>
+    /\ UNCHANGED <<seq, k, i, n, res, stopflag, cached, last, fm, hook>>
 
 More == res = "again" \/ k < Len(seq)       \* another call would follow the wait
 
@@ -141,7 +148,7 @@ Wake ==
           /\ IF res = "again" THEN i' = i + 1 /\ pc' = "call" /\ UNCHANGED <<k, out, owed>>
              ELSE IF k < Len(seq) THEN k' = k + 1 /\ i' = 0 /\ pc' = "call" /\ UNCHANGED <<out, owed>>
              ELSE Terminate(NoOut) /\ UNCHANGED <<k, i>>
-    /\ UNCHANGED <<seq, n, res, stopflag, cached, last, fm>>
+    /\ UNCHANGED <<seq, n, res, stopflag, cached, last, fm, hook>>
 
 (* DEVIATION of the code as it stands (never part of SNext; used by Trace_Sequencer and by     *)
 (* MC_Sequencer_asimpl.cfg, which is expected to violate StopNoNewStep): the flag is examined    *)
@@ -150,13 +157,13 @@ Dev_LateStop ==
     /\ pc = "sleep" /\ stopflag /\ More
     /\ pc' = "call"
     /\ IF res = "again" THEN i' = i + 1 /\ k' = k ELSE k' = k + 1 /\ i' = 0
-    /\ UNCHANGED <<seq, n, res, stopflag, out, owed, cached, last, fm>>
+    /\ UNCHANGED <<seq, n, res, stopflag, out, owed, cached, last, fm, hook>>
 
 (* a finished thread polls the module (doPoll): the status parameter is refreshed *)
 EndPoll == /\ owed > 0
            /\ owed' = owed - 1
            /\ cached' = Status
-           /\ UNCHANGED <<seq, k, i, n, pc, res, stopflag, out, last, fm>>
+           /\ UNCHANGED <<seq, k, i, n, pc, res, stopflag, out, last, fm, hook>>
 
 Thread == Call \/ Ret \/ CleanupAct \/ Wake \/ EndPoll
 SNext == (\E s \in Seqs : Start(s)) \/ Stop \/ Thread
